@@ -332,6 +332,9 @@ func (its *PushPullHandler) processSubscribeOrCreate(code pushPullCase) errors.O
 		case caseMatchKeyNotType: // key is already used;
 			return errors.PushPullDuplicateKey.New(its.ctx.L(), its.Key)
 		case caseAllMatchedSubscribed: // already created and subscribed; might duplicate creation; do nothing
+			if its.DUID != its.datatypeDoc.DUID { // not a repetition of the creating request: the key is taken
+				return errors.PushPullDuplicateKey.New(its.ctx.L(), its.Key)
+			}
 		case caseAllMatchedNotSubscribed: // error: already created but not subscribed;
 			return errors.PushPullDuplicateKey.New(its.ctx.L(), its.Key)
 		case caseAllMatchedNotVisible: //
